@@ -85,7 +85,7 @@ THEOREMS = ["T_Split: both pieces coincide with the original under the affine ma
 
 
 def run(ctx):
-    res = core.run_tlc("MC_C07", "MC_C07_%s.cfg" % ctx.tier, timeout=3400)
+    res = core.run_model(ctx, "MC_C07", 3400, thorough_seeds=(2, 3, 5))
     core.tlc_must_pass(res, "MC_C07")
     ctx.add_tlc(res, "exhaustive over shapes x (split parameter | domain end | decomposition direction)")
     ctx.theorems = THEOREMS
